@@ -295,6 +295,7 @@ func (c *CheckCtx) addDrv(name string) {
 		c.Extra = append(c.Extra, &Obligation{Name: prefix + "/frame/action-switch", Class: "frame", Status: "sat", Solver: "frame-scan", Props: []string{c.Prop},
 			Output: "the frame of the action switch is broken: " + e})
 	}
+	c.ExtraFuncs = append(c.ExtraFuncs, prefix+" (E-DRV)")
 	se.buildRegions(16)
 	for _, ct := range se.order {
 		if ct.region.err != "" {
